@@ -37,12 +37,18 @@ Reset(e) ==
   /\ inW' = [p \in Procs |-> {}]
   /\ durable' = {f \in Files : e.exists[f]}
 
+\* the contents of a table that no committed transaction knows yet (created, uncommitted) are not compared
+DirMatch(d) ==
+  \A f \in Files : /\ d[f].lock = DirOf(f)'.lock /\ d[f].nrlock = DirOf(f)'.nrlock
+                    /\ d[f].temp = DirOf(f)'.temp /\ d[f].exists = DirOf(f)'.exists
+                    /\ (f \in durable' => d[f].ver = DirOf(f)'.ver)
+
 Matches(e) ==
   /\ pc'[e.p].pt = e.pt
   /\ pc'[e.p].f = e.f
-  /\ pc'[e.p].cf = e.cf
-  /\ outcome'[e.p] = e.out
-  /\ DirAll' = e.dir
+  /\ (e.cf = "?" \/ pc'[e.p].cf = e.cf)          \* binary runs do not log the kind of control file
+  /\ ("out" \in DOMAIN e => outcome'[e.p] = e.out)
+  /\ ("dir" \in DOMAIN e => DirMatch(e.dir))     \* binary runs log the directory only at the end
 
 TraceNext ==
   /\ l <= Len(Trace)
@@ -51,8 +57,8 @@ TraceNext ==
        \/ e.a = "init" /\ Reset(e)
        \/ e.a = "step" /\ Step(e.p) /\ Matches(e)
        \/ e.a = "timeout" /\ Timeout(e.p) /\ Matches(e)
-       \/ e.a = "crash" /\ Crash(e.p) /\ DirAll' = e.dir
-       \/ e.a = "end" /\ UNCHANGED vars /\ DirAll = e.dir
+       \/ e.a = "crash" /\ Crash(e.p) /\ DirMatch(e.dir)
+       \/ e.a = "end" /\ UNCHANGED vars /\ DirMatch(e.dir)
 
 TraceSpec == TraceInit /\ [][TraceNext]_<<vars, l>>
 
